@@ -31,12 +31,12 @@ structure NewStamps where
   deriving DecidableEq, Repr
 
 /-- a setter / method of the new entity ran (`ts`: the touch states in which it can return; under a
-condition: it may also not have run at all).  It must not stamp the owner; with the switch off, or
+condition: it may also not have run at all).  It must not stamp the owner or a linked object; with the switch off, or
 when no returning path runs the idiom, nothing changes; when every returning path runs it,
 `updated_at` is the current time; when the paths disagree the result is known only if `updated_at`
 is the current time already. -/
 def touchNew (auto : Bool) (st : NewStamps) (ts : List Touch) : Option NewStamps :=
-  if ts.contains .parent then none
+  if ts.contains .parent || ts.contains .linked then none
   else if !auto || ts.all (· == .none) then some st
   else if ts.all (· == .self) then some { st with updated := true }
   else if st.updated then some st else none
